@@ -35,9 +35,10 @@ ASSUMPTIONS = [
     'names/values is done only in replay (real file, independent walker)',
     'readers: uamiv memmap (size arithmetic, all four file kinds) and record '
     'reader; one3d/temperature/height_pressure/wind memmap readers on the '
-    'full reference file (checks/metmap.py) and the wind reader\'s layer/'
-    'step arithmetic on a symbolic record file (2..24 cells per layer); '
-    'lateral_boundary, landuse, cloud_rain, bpch and ARL are not encoded',
+    'full reference file (checks/metmap.py; also lateral_boundary) and the '
+    'wind reader\'s layer/step arithmetic on a symbolic record file (2..24 '
+    'cells per layer); landuse, cloud_rain (full file), bpch and ARL are '
+    'not encoded',
 ]
 
 MANIFEST = {
